@@ -699,7 +699,7 @@ CONDITIONS = [
          smoke=["check_format_render(3, 1, 1, 1, 2, 1, 0, 0)", "check_format_render(1, 0, 0, 0, 2, 2, 0, 0)"]),
     dict(fn="check_to_string", shards=(4, 16), budget=(60, 900),
          smoke=["check_to_string(5, 5, 0, 1)", "check_to_string(5, 6, 0, 0)"]),
-    dict(fn="check_update_context", shards=(16, 16), budget=(125, 1500),
+    dict(fn="check_update_context", shards=(16, 16), budget=(220, 1500),
          smoke=["check_update_context(3, 1, 1, 1, 3, 0, False, 0, False, False, True, True)",
                 "check_update_context(3, 3, 1, 1, 1, 2, True, 0, False, False, True, True)",
                 "check_update_context(3, 1, 1, 1, 1, 4, False, 0, False, False, True, True)",
